@@ -7,7 +7,7 @@ from .c05 import same_value
 
 ID = "C06"
 LEVEL = "proof"
-PROPS_MODULE = "SymmModel.Props.C06All2"
+PROPS_MODULE = "SymmModel.Props.C06All3"
 THEOREMS = [
     "SymmModel.C06.dropMisaligned_blocks_fst",
     "SymmModel.C06.dropMisaligned_blocks_snd",
@@ -33,10 +33,24 @@ THEOREMS = [
     "SymmModel.C06.tensordotF_refines_graded_any_mode",
     "SymmModel.C06.tdotF_axes_perm_any_mode",
     "SymmModel.C06.tdotF_pretranspose_any_mode",
-    "SymmModel.C06.tdotF_swap_any_mode"
+    "SymmModel.C06.tdotF_swap_any_mode",
+    "SymmModel.C06.tensordotF_modes_agree_shapes",
+    "SymmModel.C06.ownBox_of_tableBox",
+    "SymmModel.C06.tensordotF_to_blockwise'",
+    "SymmModel.C06.tensordotF_refines_graded_any_mode'",
+    "SymmModel.C06.tdotF_axes_perm_any_mode'",
+    "SymmModel.C06.tdotF_pretranspose_any_mode'",
+    "SymmModel.C06.tdotF_swap_any_mode'",
+    "SymmModel.C06.tensordotFused_obs_eq_blockwise_all",
+    "SymmModel.C06.tensordotA_modes_agree_all",
+    "SymmModel.C06.tensordotF_modes_agree_weak",
+    "SymmModel.C06.tensordotF_refines_graded_any_mode_weak",
+    "SymmModel.C06.tdotF_assoc_any_mode",
+    "SymmModel.C06.tdotF_assoc_any_mode_distinct",
+    "SymmModel.C06.tdotF_assoc_any_mode_stored"
 ]
-LEAN_FILES = ["SymmModel.Props.C06", "SymmModel.Proofs.TdotLemmas", "SymmModel.Proofs.Accum", "SymmModel.Proofs.BlkLemmas", "SymmModel.Props.C06b", "SymmModel.Props.C06All", "SymmModel.Proofs.TdotFused1", "SymmModel.Proofs.TdotFused2", "SymmModel.Proofs.TdotFused3", "SymmModel.Proofs.TdotFused4", "SymmModel.Proofs.TdotFused5", "SymmModel.Proofs.TdotFused6", "SymmModel.Proofs.TdotFused7", "SymmModel.Proofs.TdotFused8", "SymmModel.Proofs.TdotFused9", "SymmModel.Props.C06c", "SymmModel.Props.C06All2"]
-PLANNED = ["fused path with an empty left or right group (vector / scalar results) and fused mode with no contracted axes", "OwnBox = index-table box (removes the OwnBox hypotheses of the any-mode corollaries)", "S7 for fused/auto (needs tensordotF congruence for SameView operands)", "tensordot_fuse_commute (fusing free legs before vs after)"]
+LEAN_FILES = ["SymmModel.Props.C06", "SymmModel.Proofs.TdotLemmas", "SymmModel.Proofs.Accum", "SymmModel.Proofs.BlkLemmas", "SymmModel.Props.C06b", "SymmModel.Props.C06All", "SymmModel.Proofs.TdotFused1", "SymmModel.Proofs.TdotFused2", "SymmModel.Proofs.TdotFused3", "SymmModel.Proofs.TdotFused4", "SymmModel.Proofs.TdotFused5", "SymmModel.Proofs.TdotFused6", "SymmModel.Proofs.TdotFused7", "SymmModel.Proofs.TdotFused8", "SymmModel.Proofs.TdotFused9", "SymmModel.Props.C06c", "SymmModel.Props.C06All2", "SymmModel.Proofs.TdotFused10", "SymmModel.Proofs.TdotFused11", "SymmModel.Proofs.TdotFused12", "SymmModel.Proofs.TdotFused13", "SymmModel.Proofs.TdotFused14", "SymmModel.Proofs.TdotFused15", "SymmModel.Proofs.TdotFused16", "SymmModel.Proofs.TdotFused17", "SymmModel.Proofs.TdotFused18", "SymmModel.Proofs.TdotFused19", "SymmModel.Proofs.TdotFused20", "SymmModel.Proofs.TdotFused21", "SymmModel.Proofs.TdotFused22", "SymmModel.Proofs.TdotFused23", "SymmModel.Proofs.TdotFusedAll", "SymmModel.Proofs.TdotFusedW1", "SymmModel.Proofs.TdotFusedW2", "SymmModel.Proofs.TdotFusedS1", "SymmModel.Proofs.TdotFusedS2", "SymmModel.Proofs.TdotFusedS3", "SymmModel.Proofs.TdotFusedS4", "SymmModel.Props.C06d", "SymmModel.Props.C06All3"]
+PLANNED = ["tensordot_fuse_commute (fusing free legs before vs after the contraction)", "n-tensor chains in fused/auto mode (blockwise: C04f", "three tensors: tdotF_assoc_any_mode)"]
 RULE = ("random contractible pairs (abelian and fermionic, even/odd parity, all symmetries, sparse operands whose "
         "present sectors differ, operands with a pre-fused free leg); modes fused/blockwise/auto compared with each "
         "other, with the Lean model, and with the explicit route align -> fuse contracted legs on both operands -> "
